@@ -56,7 +56,9 @@ def get_smallest_distance(
     Returns:
         smallest distance between groups
     """
-    res_dist = MAX_DISTANCE
+    # squared distances are compared: start from infinity, not from
+    # MAX_DISTANCE, so that pairs more than 1000 A apart are still found
+    res_dist = math.inf
     res_atom1 = None
     res_atom2 = None
     for atom1 in atoms1:
